@@ -14,7 +14,7 @@ from streams.cluster import T0, hx
 
 NO_MODEL = True
 HEADER = 3
-REQUIRED_SHAPES = ["backup_fragment_checked", "primary_fragment_checked", "many_tables_before_compaction", "expired_by_ttl", "garbage_below_threshold", "destroy_during_compaction"]
+REQUIRED_SHAPES = ["backup_fragment_checked", "primary_fragment_checked", "many_tables_before_compaction", "expired_by_ttl", "garbage_below_threshold", "destroy_during_compaction", "idle_tables_given_back", "fragment_without_garbage"]
 
 
 class Oracle:
@@ -67,6 +67,14 @@ class Oracle:
                             return "%s %s partition %d: in use %d + garbage %d exceed the %d bytes allocated" % (m, kind, pid, inuse, garbage, alloc)
                         if alloc > tables * T:
                             return "%s %s partition %d: %d bytes allocated in %d tables of %d" % (m, kind, pid, alloc, tables, T)
+                        if self.compacted and garbage == 0 and tables >= 2:
+                            self.hit("fragment_without_garbage")
+                        if self.compacted and len(a) > 1 and a[1] == "swept":
+                            self.hit("idle_tables_given_back")
+                            if tables > length + 2:
+                                return ("after the idle-table timeout and a compaction pass the %s fragment of partition %d on %s still has %d tables "
+                                        "(%d bytes) for %d present keys: emptied tables are not given back" % (
+                                            "BACKUP" if kind == "B" else "PRIMARY", pid, m, tables, alloc, length))
                         if self.compacted:
                             self.hit("backup_fragment_checked" if kind == "B" else "primary_fragment_checked")
                             bound = (2 * T * max(0, tables - 1)) // 5 + T
@@ -91,7 +99,8 @@ class Gen:
         yield "watchdog 120s"
         now = T0
         yield "clock %d" % now
-        yield "c.new n=%d r=%d w=1 rq=1 rr=0 parts=%d tsize=%d" % (n, R, r.choice([3, 5]), T)     # PartitionCount < members: finding F34 (C13)
+        # recycled tables are given back 300 ms after they were emptied
+        yield "c.new n=%d r=%d w=1 rq=1 rr=0 parts=%d tsize=%d tidle_ms=300" % (n, R, r.choice([3, 5]), T)     # PartitionCount < members: finding F34 (C13)
         keys = [hx(b"c%d" % i) for i in range(r.choice([3, 6]))]
         ver = 0
         for i in range(nops or 160):
@@ -118,6 +127,31 @@ class Gen:
         yield "bg.evict"
         yield "bg.compact"
         yield "wb.slab dm"
+        # most keys are deleted, the worker empties and recycles their tables (no garbage is left anywhere); after the idle
+        # timeout another pass gives the recycled tables back: at most one table per present key, the one being written and one more
+        for k in keys[1:]:
+            yield "c.del emb %d dm %s" % (r.randrange(n), k)
+        yield "bg.compact"
+        now += 1_000_000_000
+        yield "clock %d" % now
+        yield "bg.compact"
+        yield "wb.slab dm swept"
+        # a burst that is deleted completely, then a few large fresh entries that roll every fragment over to a new table:
+        # the worker reclaims every older table and NO garbage is left anywhere; the emptied tables must still be given
+        # back once the idle timeout has passed (a fragment without garbage is not "clean": it may hold idle tables)
+        zk = [hx(b"z%02d" % i) for i in range(90)]
+        for k in zk:
+            yield "c.put emb %d dz %s %s" % (r.randrange(n), k, hx(b"b" * 100))
+        for k in zk:
+            yield "c.del emb %d dz %s" % (r.randrange(n), k)
+        for i in range(10):
+            yield "c.put emb %d dz %s %s" % (r.randrange(n), hx(b"y%d" % i), hx(b"f" * (T // 2 + 40)))
+        yield "bg.compact"
+        yield "wb.slab dz"
+        now += 1_000_000_000
+        yield "clock %d" % now
+        yield "bg.compact"
+        yield "wb.slab dz swept"
         if getattr(self, "ep", 0) % 2 == 0:
             # the DMap is destroyed while the worker is about to compact one of its fragments (between picking the
             # fragment and locking it): the worker must come back, and compaction must go on afterwards
